@@ -347,12 +347,33 @@ func runScript(t *testing.T, run *vt.Run, c vt.CaseID, rng *rand.Rand, exhaustiv
 		}
 		cas := func(node int, remove bool) bool {
 			var u *upd
+			joiners := 0
+			if remove && rng.IntN(3) == 0 {
+				joiners = 1 + rng.IntN(3)
+			}
 			err := net.Client(node, k.codec).CAS(context.Background(), k.key, func(in interface{}) (interface{}, bool, error) {
 				now := time.Now()
 				if remove {
 					out, ok := k.remove(in)
 					if !ok {
 						return nil, false, nil
+					}
+					// a third of the removing updates also register brand-new, unrelated entries in the same write (a
+					// lifecycler forgetting a dead peer in the heartbeat that registers itself; an editor replacing one
+					// partition by others): at least as many as the value has ever lost
+					if joiners > 0 {
+						for j := 0; j < joiners; j++ {
+							s.seq++
+							name := fmt.Sprintf("joiner-%d", s.seq)
+							switch d := out.(type) {
+							case *ring.Desc:
+								d.Ingesters[name] = ring.InstanceDesc{Id: name, Addr: name, Zone: "z", State: ring.ACTIVE, Timestamp: now.Unix(), Tokens: []uint32{uint32(1000 + s.seq)}, RegisteredTimestamp: now.Unix()}
+							case *ring.PartitionRingDesc:
+								d.AddPartition(int32(1000+s.seq), ring.PartitionActive, now)
+								d.AddOrUpdateOwner(name, ring.OwnerActive, int32(1000+s.seq), now)
+							}
+						}
+						s.stats["removals_that_also_add_entries"]++
 					}
 					u = &upd{now.Unix(), true}
 					return out, false, nil
